@@ -825,6 +825,9 @@ def gen_problem(rng):
 
 
 BOUND_KINDS = ['none', 'inactive', 'active', 'one-sided']
+# one coordinate pinned by lb == ub (only with >= 2 free parameters: with every parameter pinned scipy's wrapper fails, see
+# corpus/C07/pending/all_pinned.json)
+EXTRA_BOUND_KINDS = ['pinned']
 START_KINDS = ['zero', 'random', 'near', 'far', 'on-bound']
 
 
@@ -846,6 +849,11 @@ def gen_bounds(rng, problem, kind):
                     lb = q4(m + rng.choice([0.375, 0.5, 0.75, 1.0]))
                     ub = lb + rng.choice([1, 2, 4]) if rng.random() < 0.5 else None
             elif rng.random() < 0.5:
+                lb, ub = q4(m - 2), q4(m + 2)
+        elif kind == 'pinned':
+            if k == j_act and len(mle) >= 2:
+                lb = ub = q4(m + rng.choice([-0.5, -0.25, 0.25, 0.5]))
+            elif rng.random() < 0.3:
                 lb, ub = q4(m - 2), q4(m + 2)
         elif kind == 'one-sided':
             s = rng.choice([-0.5, 1.5, 2.0])
@@ -879,14 +887,14 @@ def gen_start(rng, problem, bounds, kind):
     return xs
 
 
-def make_run(problem_id, problem, bounds, start, algorithm, share, iter_start=None, settings=None, tags=None):
+def make_run(problem_id, problem, bounds, start, algorithm, share, iter_start=None, settings=None, tags=None, quick=False):
     params = []
     for nm, (lb, ub), x in zip(problem['free'], bounds, start):
         params.append({'name': nm, 'init': f2h(x), 'lb': f2h(lb), 'ub': f2h(ub), 'fixed': False})
     for nm, v in problem['fixed'].items():
         params.append({'name': nm, 'init': v, 'lb': None, 'ub': None, 'fixed': True})
     return {'pid': problem_id, 'params': params, 'algorithm': algorithm, 'share': share, 'iter_start': iter_start,
-            'settings': settings, 'tags': tags or {}}
+            'settings': settings, 'tags': tags or {}, 'quick': quick}
 
 
 def gen_runs(rng, problems, algorithms, n_starts, bound_kinds):
@@ -903,9 +911,10 @@ def gen_runs(rng, problems, algorithms, n_starts, bound_kinds):
                     # restart file: the Beta objects say `start`, the file says something else (feasible as well)
                     other = gen_start(rng, p, bounds, rng.choice(['random', 'near']))
                     it = {nm: f2h(x) for nm, x in zip(p['free'], other)}
+                quick = rng.random() < 0.12          # quick_estimate(): no initial value, no derivatives, no write-back
                 for a in algorithms:
                     runs.append(make_run(pid, p, bounds, start, a, share, it, None,
-                                         {'bounds_kind': bk, 'start_kind': sk, 'group': f'{pid}/{bk}'}))
+                                         {'bounds_kind': bk, 'start_kind': sk}, quick=quick))
     return runs
 
 
@@ -960,8 +969,18 @@ def check_run(problem, run, r):
     spec = {p['name']: p for p in run['params']}
     lbs = [h2f(spec[n]['lb']) for n in names]
     ubs = [h2f(spec[n]['ub']) for n in names]
-    L, L0 = h2f(r['logLike']), h2f(r['initLogLike'])
-    g = [h2f(v) for v in r['g']]
+    quick = bool(run.get('quick'))
+    if quick and (r['g'] is not None or r['H'] is not None or r['bhhh'] is not None):
+        out.append(Finding('quick-estimate', 'quick_estimate() reports derivatives', None, {'g': r['g'], 'H': r['H']}))
+        return out, info
+    if (not quick and (r['initLogLike'] is None or r['g'] is None or r['H'] is None or r['bhhh'] is None)) or 're_g' not in r:
+        out.append(Finding('recompute', 'estimate() did not report initLogLike / g / H / bhhh, or they cannot be recomputed',
+                           'numbers', {k: r.get(k) for k in ('initLogLike', 'g', 'H', 'bhhh', 'error')}))
+        return out, info
+    L = h2f(r['logLike'])
+    # quick_estimate() computes neither the initial value nor derivatives: the recomputed ones are used for the oracles on x*
+    L0 = h2f(r['re_init']) if quick else h2f(r['initLogLike'])
+    g = [h2f(v) for v in (r['re_g'] if quick else r['g'])]
     info['converged'] = bool(r['convergence'])
     info['L'] = L
     info['x'] = x
@@ -1009,8 +1028,8 @@ def check_run(problem, run, r):
     def cmp_mat(a, b, tol):
         return len(a) == len(b) and all(cmp_vec(u, v, tol) for u, v in zip(a, b))
 
-    H = [[h2f(v) for v in row] for row in r['H']]
-    B = [[h2f(v) for v in row] for row in r['bhhh']]
+    H = [[h2f(v) for v in row] for row in (r['re_H'] if quick else r['H'])]
+    B = [[h2f(v) for v in row] for row in (r['re_bhhh'] if quick else r['bhhh'])]
     if 're_f' not in r:
         out.append(Finding('recompute', 'the likelihood cannot be recomputed at the returned estimates', 'a value', r.get('error')))
         return out, info
@@ -1069,13 +1088,29 @@ def check_run(problem, run, r):
             strict = max(strict, abs(pg) * max(abs(xi), 1.0) / max(abs(L), 1.0))
         info['relpg'] = worst
         info['relpg_strict'] = strict
+        info['relg_free_strict'] = max(abs(gi) * max(abs(xi), 1.0) / max(abs(L), 1.0) for xi, gi in zip(x, g))
         if worst > 1e-3:
             out.append(Finding('stationarity', f'convergence is reported by {alg} but the relative projected gradient is {worst:.3g} > 1e-3',
                                'gradient ~ 0 in every direction not blocked by an active bound',
                                {'estimates': x, 'g': g, 'projected_gradient': pgs, 'bounds': list(zip(lbs, ubs)), 'cause': r.get('cause'),
                                 'logLike': L, 'initLogLike': L0}))
-    # --- (5) write-back
+    # --- (5) write-back (estimate() only; quick_estimate() must leave every Beta alone or write the estimates)
     before, after = r['leaves_before'], r['leaves_after']
+    if quick:
+        # quick_estimate() is not required to write the estimates back: each free Beta holds the start (possibly read from the
+        # restart file) or the estimate; fixed ones are untouched
+        est_q = dict(zip(names, x))
+        for b0, b1 in zip(before, after):
+            same_meta = (b0['name'], b0['lb'], b0['ub'], b0['status']) == (b1['name'], b1['lb'], b1['ub'], b1['status'])
+            if b0['status'] == 0 and b0['name'] in est_q:
+                okv = fr(b1['init']) in (Fraction(est_q[b0['name']]), Fraction(start[b0['name']]), fr(b0['init']))
+            else:
+                okv = b0['init'] == b1['init']
+            if len(before) != len(after) or not same_meta or not okv:
+                out.append(Finding('writeback', f'quick_estimate() left Beta {b0["name"]} neither at its start nor at the estimate', b0, b1))
+                break
+        info['idm_stale'] = False
+        return out, info
     est = dict(zip(names, x))
     if len(before) != len(after):
         out.append(Finding('writeback', 'the Beta leaves of the formula changed', len(before), len(after)))
@@ -1147,14 +1182,11 @@ def evaluate(ctx, st, problems, runs, results):
             continue
         # same problem = same data and model, same declared bounds, same values of the fixed parameters
         g = (run['pid'], tuple(sorted((q['name'], q['lb'], q['ub'], q['init'] if q['fixed'] else None) for q in run['params'])))
-        x_ = dict(zip(results[i]['betaNames'], info['x']))
-        inside = all((q['lb'] is None or h2f(q['lb']) < x_[q['name']]) and (q['ub'] is None or x_[q['name']] < h2f(q['ub']))
-                     for q in run['params'] if not q['fixed'])
-        # the algorithms that receive the bounds solve the problem on the box; the others the unconstrained problem.  A
-        # stationary point strictly inside the box is a maximum of both (concave L), so such a run belongs to both classes
+        # the algorithms that receive the bounds solve the problem on the box; the others the unconstrained problem.  A point of
+        # the box where the whole gradient vanishes is a maximum of both (concave L): such a run belongs to both classes
         if run['algorithm'] in SUPPORTS_BOUNDS:
             groups.setdefault((g, 'box'), []).append(i)
-            if inside:
+            if info.get('relg_free_strict', 1.0) <= 1e-4:      # the full gradient vanishes: also an unconstrained maximum
                 groups.setdefault((g, 'free'), []).append(i)
         else:
             groups.setdefault((g, 'free'), []).append(i)
@@ -1208,7 +1240,6 @@ def stream_estimate(ctx, n_problems=None, only=None, name='estimate'):
                 run = {kk: vv for kk, vv in run.items() if kk != 'readable'}
                 run['pid'] = pid
                 run.setdefault('tags', {})
-                run['tags']['group'] = pid + '/' + str(run['tags'].get('bounds_kind'))
                 runs.append(run)
     else:
         rng = ctx.sub_rng(name)
@@ -1221,14 +1252,15 @@ def stream_estimate(ctx, n_problems=None, only=None, name='estimate'):
                         r2 = {kk: vv for kk, vv in run.items() if kk != 'readable'}
                         r2.update({'pid': pid, 'algorithm': a})
                         r2['tags'] = dict(run.get('tags') or {})
-                        r2['tags']['group'] = pid + '/' + str(r2['tags'].get('bounds_kind')) + '/' + json.dumps(r2['params'], sort_keys=True)[:0]
                         runs.append(r2)
-        npb = n_problems if n_problems is not None else ctx.n(14, 150)
+        npb = n_problems if n_problems is not None else ctx.n(14, 120)
         gen = {}
         for k in range(npb):
             gen[f'p{k}'] = gen_problem(rng)
         problems.update(gen)
         runs += gen_runs(rng, gen, algorithms, n_starts=ctx.n(2, 3), bound_kinds=BOUND_KINDS)
+        some = {k: v for k, v in gen.items() if len(v['free']) >= 2 and int(k[1:]) % ctx.n(3, 2) == 0}
+        runs += gen_runs(rng, some, algorithms, n_starts=1, bound_kinds=EXTRA_BOUND_KINDS)
     results = run_impl(ctx, problems, runs)
     summary = evaluate(ctx, st, problems, runs, results)
     st.extra.update(summary)
@@ -1290,7 +1322,7 @@ def stream_plumbing(ctx, n_per_alg=None, with_model=True):
             bounds = gen_bounds(rng, p, bk)
             start = gen_start(rng, p, bounds, rng.choice(START_KINDS))
             settings = {k: rng.choice(v) for k, v in SETTING_CHOICES.items()}
-            runs.append(make_run(pid, p, bounds, start, a, rng.random() < 0.5, None, settings, {'bounds_kind': bk, 'group': pid}))
+            runs.append(make_run(pid, p, bounds, start, a, rng.random() < 0.5, None, settings, {'bounds_kind': bk}))
     results = run_impl(ctx, problems, runs, spy=True)
     items, icases, ires = [], [], []
     for run, r in zip(runs, results):
